@@ -5,7 +5,7 @@ import os, random, re, sys
 import vp
 
 sys.path.insert(0, os.path.join(vp.ROOT, "translate"))
-import c09_ladder
+import c09_ladder, c08_obj
 
 LEVEL = "proof"
 META = {
@@ -19,9 +19,14 @@ META = {
             "instances, back-side runs, empty runs (operands contributing no face), property seams, normals, tangents; m2 = Manifold(m.GetMeshGL64()); the two exports are compared as "
             "canonical per-triangle records of bit patterns (positions, triangle set, run attributes, faceID, per-corner properties, per-edge "
             "tangents), plus status, tolerance, Refine(2), merge vectors alone, Merge() after stripping, the float path and OBJ text.",
-    "note": "Narrower than the property text: the Coq model covers export/import index handling only (numeric payloads are abstract identifiers; "
-            "CreateHalfedges, DedupePropVerts, SortGeometry on import are exercised by the harness, not modelled); merge_rederives (MeshGL::Merge) "
-            "and the OBJ codec have no theorem. Normal channels are skipped in the bit comparison when the run carries the hasNormals flag.",
+    "note": "roundtrip_records_partial / roundtrip_consistent model the import's merge map, degenerate-triangle drop, run -> triRef assignment, "
+            "DedupePropVerts (a map q, soundness as hypothesis), SortGeometry (vertex / property-vertex / face permutation oracles, tangents travelling "
+            "with their face) on denormalised triangles (numeric payloads are abstract identifiers) and prove the per-triangle records equal up to a "
+            "triangle permutation; NOT modelled (hypotheses, exercised by the harness): CreateHalfedges' pairing and opposed-pair removal, IsManifold, "
+            "CleanupTopology being a no-op, SetNormalsAndCoplanar. merge_rederives_partial is at the level of the union-find partition (collider = oracle "
+            "with C14's exactness, union-find = C13's sequential model); that every seam duplicate is an open-edge vertex is not proved. OBJ: "
+            "obj_decimal_digits_determine_double over rationals, tied to the precision/notation read from WriteOBJ. Normal channels are skipped in the bit "
+            "comparison when the run carries the hasNormals flag.",
 }
 
 FIELDS = ["positions", "triangles", "runs_ok", "empty_runs_ok", "numruns", "faceid", "props_ok", "tangent", "tangent_len", "tol", "refine_same",
@@ -59,6 +64,15 @@ def run(cx):
         with open(os.path.join(gen, "Ladder.v"), "w") as f:
             f.write("(* FALLBACK: translation failed; reference (patched) table *)\nFrom MV Require Import Codec.IngestDefs.\n"
                     "Definition table : list item := patched_table.\n")
+    obj_ok_translate = True
+    try:
+        prec, sci = c08_obj.translate(vp.REPO)
+        c08_obj.emit(prec, sci, os.path.join(gen, "ObjPrecision.v"))
+        cx.cov["obj_writer_format"] = {"precision": prec, "scientific": sci}
+    except Exception as e:
+        obj_ok_translate = False
+        cx.broke("translate:c08_obj", "WriteOBJ's float format is no longer recognised: %s" % str(e)[:400])
+        c08_obj.emit(16, True, os.path.join(gen, "ObjPrecision.v"))
     for ext in (".vo", ".glob", ".vos", ".vok"):
         try:
             os.remove(os.path.join(vp.COQ, "Codec", "ExportIngestEval" + ext))
@@ -69,6 +83,9 @@ def run(cx):
     m = re.search(r"accepts_export_current\s*=\s*(true|false)", log)
     accepts = (m.group(1) == "true") if m else None
     cx.cov["accepts_export_tables(Gen.Ladder.table)"] = accepts
+    m = re.search(r"obj_format_current\s*=\s*(true|false)", log)
+    obj_format_ok = (m.group(1) == "true") if m else None
+    cx.cov["obj_format_ok(Gen.ObjPrecision)"] = obj_format_ok
     exe = vp.build_harness("c08_roundtrip", "seq", link_lib=True)
     rng = random.Random(cx.seed * 8191 + 8)
     n = cx.pick(300, 6000)
@@ -148,6 +165,13 @@ def run(cx):
             cx.broke("obligation:accepts_export_tables", "Gen.Ladder.table contains a rung that rejects run tables the exporter emits "
                      "(or the evaluation did not run: %r) and no concrete program was found" % accepts)
         cx.notes.append("accepts_export_tables Gen.Ladder.table = %r" % accepts)
+    # obligation of theorem obj_decimal_digits_determine_double on the constants read from WriteOBJ
+    cx.obligations += 1
+    if obj_format_ok and obj_ok_translate:
+        cx.discharged += 1
+    elif obj_ok_translate:
+        if not any(k.startswith("obj-") for k, _, _ in cx.violations):
+            cx.broke("obligation:obj_format_ok", "WriteOBJ's precision/notation does not guarantee 17 significant digits (%r) and no lossy round trip was found" % obj_format_ok)
     cx.cov.update({"evaluations": n, "distinct_nontrivial": nontriv,
                    "rule": "seeded programs from 21 templates; non-trivial = >= 2 runs or merge vectors (property seam) or tangents or empty runs; distinct by (template, triangles, runs, merges)",
                    "distribution": dist, "fields_compared": FIELDS, "field_failures": per_field_fail,
